@@ -81,16 +81,17 @@ theorem list_report_n (fl : Flavour) (verbose : Bool) (img : Image) (hall : ∀ 
   rw [load_save_n fl img hw hn]
   dsimp only
   constructor
-  · rw [finish_report none img _ rfl rfl rfl rfl rfl hall]
+  · rw [finish_report none img _ rfl rfl rfl rfl rfl hall (fun t ht => by cases ht)]
     simp
-  · obtain ⟨st', h1, _⟩ := readSides_report none img 0 { l := { processing := 0, verbose := verbose } } rfl rfl hall
+  · obtain ⟨st', h1, _⟩ := readSides_report none img 0 { l := { processing := 0, verbose := verbose } } rfl rfl hall (fun t ht => by cases ht)
     rw [h1]; rfl
 
 /-- `--extract` of such an archive: status 0, exactly the files of its sides under `side0`, `side1`, …,
     and the report `readReport 1` -/
 theorem extract_n (fl : Flavour) (verbose : Bool) (archive : Str) (into : Option Str) (img : Image)
     (hall : ∀ sd ∈ img, SideOk sd ∧ NiceSide sd)
-    (hn : img.length = 4 ∨ (fl = .fd ∧ (img.length = 1 ∨ img.length = 2))) :
+    (hn : img.length = 4 ∨ (fl = .fd ∧ (img.length = 1 ∨ img.length = 2)))
+    (hk : ∀ p ∈ sidesFiles (Tape.targetDirOf archive into) img 0, samePath p.1 archive = false) :
     (extract fl verbose archive into (save fl img)).status = .ret 0
     ∧ (extract fl verbose archive into (save fl img)).writes = sidesFiles (Tape.targetDirOf archive into) img 0
     ∧ (extract fl verbose archive into (save fl img)).out = [intoText into ++ readReport 1 verbose img] := by
@@ -98,16 +99,16 @@ theorem extract_n (fl : Flavour) (verbose : Bool) (archive : Str) (into : Option
   unfold extract
   rw [load_save_n fl img hw hn]
   dsimp only
-  refine ⟨(finish_nice _ img _ hall).1, ?_, ?_⟩
-  · rw [(finish_nice _ img _ hall).2]; rfl
+  refine ⟨(finish_nice _ img _ hall hk).1, ?_, ?_⟩
+  · rw [(finish_nice _ img _ hall hk).2]; rfl
   · cases into with
     | none =>
       dsimp only
-      rw [finish_report _ img _ rfl rfl rfl rfl rfl hall]
+      rw [finish_report _ img _ rfl rfl rfl rfl rfl hall (fun t ht p hp => by cases ht; exact hk p hp)]
       simp [intoText]
     | some d =>
       dsimp only
-      rw [finish_report _ img _ rfl rfl rfl rfl rfl hall]
+      rw [finish_report _ img _ rfl rfl rfl rfl rfl hall (fun t ht p hp => by cases ht; exact hk p hp)]
       simp [intoText, DL.print, List.append_assoc]
 
 end Moto.Disk
